@@ -83,7 +83,7 @@ Example x_csv_log_bad : exists op e,
      = {| out_stdout := b "2021-03-07,tea,1" ++ x_nl; out_status := Failed (EParse e) |}.
 Proof.
   eexists. eexists. split; [vm_compute; reflexivity|]. split; [vm_compute; reflexivity|].
-  split; [left; reflexivity|]. split; vm_compute; reflexivity.
+  split; [reflexivity|]. split; vm_compute; reflexivity.
 Qed.
 
 (** the hypotheses of [csv_db_resolved_run_sorted] hold (map orders reversed at every site),
